@@ -10,12 +10,12 @@ import (
 // State is the symbolic program state at a point: a reach condition plus the
 // current version (an SMT constant) of every heap array / ghost map.
 type State struct {
-	reach  string
-	base   string
-	ver    map[string]string
-	hw     string // allocation high-water mark (Int term)
+	reach         string
+	base          string
+	ver           map[string]string
+	hw            string // allocation high-water mark (Int term)
 	pendingBaseHW bool
-	defers []*deferRec
+	defers        []*deferRec
 }
 
 type deferRec struct {
